@@ -45,7 +45,7 @@ def run(ctx):
                                       "replay": {"kind": "k1", "case": d2.to_json(), "impl": py, "model": lean}})
     r = rng("c12-real")
     classes = ["Transfer", "MassFunction", "TransferWDM", "MassFunctionWDM", "Cosmology"]
-    per = 6 if quick else 100
+    per = 10 if quick else 100
     tot = {"ops": 0, "rejected": 0, "reads": 0, "read_exc": 0, "compared": 0, "fresh_built": 0}
     hs = []
     final_unreadable = 0
